@@ -360,9 +360,22 @@ pub fn oracle_c08(ex: &Exec, acc: &mut Acc) -> Verdict {
                 };
             }
             if a.has_text && !a.multiline_src && b.multiline_src {
+                // Breaks that even an unlimited width cannot avoid (a code block with several statements, a line
+                // comment, …) are not rewrapping: the narrow layout may not fold the line where the unlimited one does not.
+                let forced = match fmtx::fmt(ex.x, Cfg::new(fmtx::W_INF, ex.cfg.tab, ex.cfg.reorder)) {
+                    FmtOut::Ok(yi) => {
+                        let ai = crate::streams::all_prose(&typst_syntax::parse(&yi));
+                        ai.get(mi).and_then(|l| l.get(li)).map(|l| l.multiline_src).unwrap_or(false)
+                    }
+                    _ => false,
+                };
+                if forced {
+                    acc.count("prose_lines_with_forced_breaks_inside_embedded_code", 1);
+                    continue;
+                }
                 return Verdict::Violated {
                     oracle: "prose-one-line",
-                    detail: format!("markup node {} line {} ({:?}) was one source line but the output folds it over several lines", mi, li, util::clip(&a.text, 60)),
+                    detail: format!("markup node {} line {} ({:?}) was one source line and stays one line at unlimited width, but this width folds it over several lines", mi, li, util::clip(&a.text, 60)),
                 };
             }
         }
